@@ -165,7 +165,7 @@ def units(tier):
     return u
 
 
-BUDGET = {"quick": 150, "thorough": 1500}
+BUDGET = {"quick": 150, "thorough": 1200}
 UNIT_PATH_CAP = {"quick": 500, "thorough": 40000}
 BOUNDS = {
     "quick": "payload sizes on the 127/128 and 16383/16384 boundaries of the length prefix (string, bytes, nested message, packed list, map entry; field numbers 1, 15, 16, 2047, 2048); catalogue S1 + 5 map shapes + 10 S2 shapes, 6 of them also with one unknown field (symbolic number 41..2**29-1, wire types 0/1/2/5, "
